@@ -36,6 +36,16 @@ class PathInferenceError(UndefinedDataTypeError):
         self.valid_dsdl_roots = valid_dsdl_roots[:] if valid_dsdl_roots is not None else None
 
 
+def _parse_decimal_number(text: str) -> int:
+    """
+    The numeric components of a file name are plain decimal numbers. The built-in conversion alone would also accept
+    signs, digit separators, surrounding whitespace and non-ASCII digits.
+    """
+    if not (text.isascii() and text.isdigit()):
+        raise ValueError(f"Not a decimal number: {text!r}")
+    return int(text)
+
+
 class DSDLDefinition(ReadableDSDLFile):
     """
     A DSDL type definition source abstracts the filesystem level details away, presenting a higher-level
@@ -200,7 +210,7 @@ class DSDLDefinition(ReadableDSDLFile):
         # Parsing the fixed port ID, if specified; None if not
         if str_fixed_port_id is not None:
             try:
-                self._fixed_port_id: int | None = int(str_fixed_port_id)
+                self._fixed_port_id: int | None = _parse_decimal_number(str_fixed_port_id)
             except ValueError:
                 raise FileNameFormatError(
                     "Not a valid fixed port-ID: %s. "
@@ -214,7 +224,9 @@ class DSDLDefinition(ReadableDSDLFile):
 
         # Parsing the version numbers
         try:
-            self._version = Version(major=int(str_major_version), minor=int(str_minor_version))
+            self._version = Version(
+                major=_parse_decimal_number(str_major_version), minor=_parse_decimal_number(str_minor_version)
+            )
         except ValueError:
             raise FileNameFormatError("Could not parse the version numbers", path=self._file_path) from None
 
